@@ -1593,7 +1593,7 @@ fn encode_main(a: &Args) -> i32 {
     let mut without: Vec<String> = vec![];
     let max_encs = if a.thorough() { 4 } else { 2 };
     for d in registry() {
-        if !a.wants(d.name) {
+        if !wants(a, d.name) {
             continue;
         }
         let encs = match guard(|| setup(d.name, &pl, true, None, &tmp).encs) {
@@ -1679,7 +1679,7 @@ fn run_main(a: &Args) -> i32 {
     let g = load_generated(a.input.as_ref().expect("--in"), None, true);
     let mut jobs: Vec<JobSpec> = vec![];
     for d in registry() {
-        if !a.wants(d.name) {
+        if !wants(a, d.name) {
             continue;
         }
         for e in encs.get(d.name).cloned().unwrap_or_default() {
@@ -1726,11 +1726,11 @@ fn run_main(a: &Args) -> i32 {
     for (i, job) in jobs.iter().enumerate() {
         let r = results[i].as_ref().expect("job result");
         let bad = r.codes.iter().any(|&c| c != O_OK && c != O_ERR);
-        *dirty.entry(job.def.name).or_insert(false) |= bad;
+        *dirty.entry(family(job.def.name)).or_insert(false) |= bad;
     }
     let mut tr = Tracer::new(&a.out, "c15");
     tr.max_events = 400;
-    let mut bad_tracers: Vec<Tracer> = vec![];
+    let mut bad_tracers: BTreeMap<&str, Tracer> = BTreeMap::new();
     let mut subjects = serde_json::Map::new();
     let (mut cases, mut nontrivial, mut children) = (0u64, 0u64, 0usize);
     let mut totals = [0u64; 9];
@@ -1755,14 +1755,18 @@ fn run_main(a: &Args) -> i32 {
             }
             pstat = [0; 9];
             cur_parser = job.def.name;
-            let cfg = json!({"win": g.win, "raw": job.def.rawmax(g.raw), "olen": job.def.olen});
-            if dirty[job.def.name] {
-                let mut t = Tracer::new(&a.out, &format!("c15-bad-{:03}", bad_tracers.len()));
-                t.max_events = usize::MAX;
-                t.reset("Parser", job.def.name, cfg);
-                bad_tracers.push(t);
+            let cfg = json!({"parser": job.def.name, "win": g.win, "raw": job.def.rawmax(g.raw), "olen": job.def.olen});
+            let fam = family(job.def.name);
+            if dirty[fam] {
+                let n = bad_tracers.len();
+                let t = bad_tracers.entry(fam).or_insert_with(|| {
+                    let mut t = Tracer::new(&a.out, &format!("c15-bad-{:02}-{}", n, fam));
+                    t.max_events = usize::MAX;
+                    t
+                });
+                t.reset("Parser", fam, cfg);
             } else {
-                tr.reset("Parser", job.def.name, cfg);
+                tr.reset("Parser", fam, cfg);
             }
         }
         let ebytes: &[u8] = job.enc.as_ref().map(|e| &e.bytes[..]).unwrap_or(&empty);
@@ -1809,8 +1813,8 @@ fn run_main(a: &Args) -> i32 {
             if samples.len() < 4 && (seg.kind == b't' || seg.kind == b'm') && i % 7 == 0 {
                 samples.push(ev.clone());
             }
-            if dirty[job.def.name] {
-                bad_tracers.last_mut().unwrap().ev(ev);
+            if dirty[family(job.def.name)] {
+                bad_tracers.get_mut(family(job.def.name)).unwrap().ev(ev);
             } else {
                 tr.ev(ev);
             }
@@ -1830,16 +1834,16 @@ fn run_main(a: &Args) -> i32 {
     tr.close();
     let mut n_events = tr.total_events;
     let mut n_runs = tr.runs;
-    for t in bad_tracers.iter_mut() {
+    for t in bad_tracers.values_mut() {
         t.close();
         n_events += t.total_events;
         n_runs += t.runs;
     }
-    let vacuous: Vec<&str> = registry().iter().filter(|d| a.wants(d.name) && encs.get(d.name).map(|v| v.is_empty()).unwrap_or(true)).map(|d| d.name).collect();
+    let vacuous: Vec<&str> = registry().iter().filter(|d| wants(a, d.name) && encs.get(d.name).map(|v| v.is_empty()).unwrap_or(true)).map(|d| d.name).collect();
     write_summary(
         &a.out,
         &json!({
-            "events": n_events, "runs": n_runs, "dirty_parsers": dirty.values().filter(|&&b| b).count(), "cases": cases, "nontrivial_cases": nontrivial, "jobs": njobs, "children": children,
+            "events": n_events, "runs": n_runs, "dirty_families": dirty.values().filter(|&&b| b).count(), "cases": cases, "nontrivial_cases": nontrivial, "jobs": njobs, "children": children,
             "outcomes": stat_json(&totals), "subjects": subjects, "tool_errors": tool_errs,
             "base_cases": base_all, "base_cases_ok_exact": base_ok, "parsers_without_valid_encoding": vacuous, "samples": samples,
             "length_classes": g.classes.len(), "win": g.win, "raw": g.raw, "job_wall_ms": ptime,
@@ -1853,6 +1857,15 @@ fn run_main(a: &Args) -> i32 {
         }
         3
     }
+}
+
+/// the validation subject: the family of a parser (first component of its name)
+fn family(name: &str) -> &str {
+    name.split('.').next().unwrap_or(name)
+}
+
+fn wants(a: &Args, name: &str) -> bool {
+    a.wants(name) || a.wants(family(name))
 }
 
 fn stat_json(c: &[u64; 9]) -> Value {
